@@ -40,6 +40,11 @@ Props/C12 proves `writer_reader_fields_agree`, `field_exceptions_exact`, `no_fie
 whose blocks have no analysable enclosing fn, fewer than 300 rows or fewer than half of them resolved to struct fields
 on both sides — are a TRANSLATE-ERROR.
 
+ENUM BYTE CODECS + positional names (lean/LdkModel/Generated/EnumCodecs.lean): the hand-written `match` pairs variant ->
+byte / byte -> variant (`enumCodecs`, see `extract_enum_codecs`; a core codec whose match changes shape is a
+TRANSLATE-ERROR) and the common subsequence of positional written field names / read variable names of the three big
+serializers (`positionalCommon`).
+
 Exit 2 with `TRANSLATE-ERROR …` when an invocation cannot be parsed.  Invocations that are deliberately
 not extracted are listed in SKIP with the reason (and emitted in the json as "skipped").
 """
